@@ -95,50 +95,65 @@ def run(ctx: Ctx) -> None:
 
 
 def guard(ctx: Ctx, py: PyProgram) -> None:
+    """get_instruction_text returns text only on a path where (data[:decoded.length()]) == encode(decoded, addr) was established, with
+    `decoded` the result of this call's decode(data, addr, ...).  Locals are identified by their definitions, not by their names."""
     fn = py.func(isa.ARCH_PY, "SC62015.get_instruction_text")
     g = cfgmod.build_py(fn, "get_instruction_text")
     rets = [r for r in ast.walk(fn) if isinstance(r, ast.Return) and r.value is not None and not (isinstance(r.value, ast.Constant) and r.value.value is None)]
     ctx.need(len(rets) == 1, "get_instruction_text: expected exactly one non-None return")
-    gs = g.guards_of(g.node_of(rets[0]))
-    texts = [py_guard_text(x) for x in gs]
-    ok = False
-    for a, pol, _o in gs:
-        if isinstance(a, ast.Compare) and len(a.ops) == 1:
-            l, r = unparse(a.left), unparse(a.comparators[0])
-            if {l, r} == {"encoded", "recoded"} and ((isinstance(a.ops[0], ast.NotEq) and not pol) or (isinstance(a.ops[0], ast.Eq) and pol)):
-                ok = True
-    if not ok:
-        ctx.violation("C02.2/roundtrip-guard", key_of(isa.ARCH_PY, "SC62015.get_instruction_text", "return text"), "text is returned without the encoded == recoded comparison", f"{isa.ARCH_PY}:{rets[0].lineno}", guards=texts)
-    # the compared values are data[:length] and encode(decoded, addr)
     from ..rules import py_defs
     d = py_defs(fn)
-    encd = [v for v in d.get("encoded", []) if isinstance(v, ast.AST)]
-    recd = [v for v in d.get("recoded", []) if isinstance(v, ast.AST)]
+    # the local holding the decoded instruction: bound (walrus or assignment) from a call of decode / a self.<helper>
+    dec_names = set()
+    for n_ in ast.walk(fn):
+        v = t = None
+        if isinstance(n_, ast.NamedExpr) and isinstance(n_.target, ast.Name):
+            t, v = n_.target.id, n_.value
+        elif isinstance(n_, ast.Assign) and len(n_.targets) == 1 and isinstance(n_.targets[0], ast.Name):
+            t, v = n_.targets[0].id, n_.value
+        if t and isinstance(v, ast.Call) and ((isinstance(v.func, ast.Name) and v.func.id == "decode") or (isinstance(v.func, ast.Attribute) and unparse(v.func.value) == "self")):
+            dec_names.add(t)
+    ctx.need(len(dec_names) == 1, f"get_instruction_text: decoded-instruction local not identified ({sorted(dec_names)})")
+    dec = next(iter(dec_names))
 
     def res(e: ast.AST, depth: int = 0) -> ast.AST:
-        while isinstance(e, ast.Name) and e.id in d and len(d[e.id]) == 1 and isinstance(d[e.id][0], ast.AST) and depth < 4 and e.id not in ("decoded", "data", "addr"):
+        while isinstance(e, ast.Name) and e.id in d and len(d[e.id]) == 1 and isinstance(d[e.id][0], ast.AST) and depth < 4 and e.id not in (dec, "data", "addr"):
             e = d[e.id][0]
             depth += 1
         return e
 
     def is_len(e: ast.AST) -> bool:
         e = res(e)
-        return isinstance(e, ast.Call) and isinstance(e.func, ast.Attribute) and e.func.attr == "length" and unparse(e.func.value) == "decoded" and not e.args
+        return isinstance(e, ast.Call) and isinstance(e.func, ast.Attribute) and e.func.attr == "length" and unparse(e.func.value) == dec and not e.args
 
-    def enc_ok(e: ast.AST) -> bool:
+    def strip(e: ast.AST) -> ast.AST:
         e = res(e)
         if isinstance(e, ast.Call) and isinstance(e.func, ast.Name) and e.func.id in ("bytes", "bytearray") and len(e.args) == 1:
             e = res(e.args[0])
+        return e
+
+    def enc_ok(e: ast.AST) -> bool:
+        e = strip(e)
         return (isinstance(e, ast.Subscript) and unparse(e.value) == "data" and isinstance(e.slice, ast.Slice) and e.slice.step is None
                 and (e.slice.lower is None or (isinstance(e.slice.lower, ast.Constant) and e.slice.lower.value == 0)) and e.slice.upper is not None and is_len(e.slice.upper))
 
     def rec_ok(e: ast.AST) -> bool:
-        e = res(e)
-        if isinstance(e, ast.Call) and isinstance(e.func, ast.Name) and e.func.id in ("bytes", "bytearray") and len(e.args) == 1:
-            e = res(e.args[0])
-        return isinstance(e, ast.Call) and isinstance(e.func, ast.Name) and e.func.id == "encode" and [unparse(a) for a in e.args] == ["decoded", "addr"]
-    if not (len(encd) == 1 and enc_ok(encd[0]) and len(recd) == 1 and rec_ok(recd[0])):
-        ctx.violation("C02.2/roundtrip-guard", key_of(isa.ARCH_PY, "SC62015.get_instruction_text", "operands of the comparison"), f"guard compares {[unparse(v) for v in encd]} with {[unparse(v) for v in recd]}, not data[:decoded.length()] with encode(decoded, addr)", isa.ARCH_PY)
+        e = strip(e)
+        return isinstance(e, ast.Call) and isinstance(e.func, ast.Name) and e.func.id == "encode" and [unparse(a) for a in e.args] == [dec, "addr"]
+    gs = g.guards_of(g.node_of(rets[0]))
+    texts = [py_guard_text(x) for x in gs]
+    ok = False
+    seen_cmp = []
+    for a, pol, _o in gs:
+        if isinstance(a, ast.Compare) and len(a.ops) == 1 and isinstance(a.ops[0], (ast.Eq, ast.NotEq)):
+            l, r = a.left, a.comparators[0]
+            seen_cmp.append(unparse(a))
+            right_pol = (isinstance(a.ops[0], ast.NotEq) and not pol) or (isinstance(a.ops[0], ast.Eq) and pol)
+            if right_pol and ((enc_ok(l) and rec_ok(r)) or (enc_ok(r) and rec_ok(l))):
+                ok = True
+    if not ok:
+        ctx.violation("C02.2/roundtrip-guard", key_of(isa.ARCH_PY, "SC62015.get_instruction_text", "return text"),
+                      f"text is returned on a path that did not establish data[:decoded.length()] == encode(decoded, addr) (comparisons on the path: {seen_cmp})", f"{isa.ARCH_PY}:{rets[0].lineno}", guards=texts)
     # ... and `decoded` is this call's decode of `data`, not something remembered from an earlier call
     from ..memo import memo_findings
     for ln, what in memo_findings(py.module(isa.ARCH_PY), fn, ("data", "addr")):
